@@ -10,6 +10,7 @@ from hv.core import Campaign, CaseInfo, hta_call, require
 from hv.gen.files import scratch_dir, write_case
 from hv.gen.kineto_sim import Opts, sim_case
 from hv.model.raw import complete_rows, links
+from hv.model.trace import kept_after_load
 
 ID = "C06"
 RULE = ("G-sim traces (1-2 ranks, FIFO streams so kernels never overlap within a stream, >= 1 kernel per rank, launches missing "
@@ -19,7 +20,9 @@ RULE = ("G-sim traces (1-2 ranks, FIFO streams so kernels never overlap within a
         "its gaps; categories add up to span - busy; ratios == share of total (2 decimals) and add up to 1. Non-trivial: a "
         "stream with >= 3 kernels showing >= 2 non-empty categories. Distinct = distinct canonical case JSON.")
 ASSUMPTIONS = [
-    "fewer than two ProfilerStep annotations (no trimming)",
+    "one case in three has 2-3 profiler steps: the analysed kernels are those the load keeps (C12's model); a kernel without any "
+    "correlation id has an open trimming fate (see C12), so every kept / dropped combination of such kernels (at most 3) is an "
+    "accepted reading and the result must match one of them",
     "kernels = device activities of category kernel / gpu_memcpy / gpu_memset; synchronisation records are not kernels",
     "kernels of a stream that start at the same instant are consecutive in order of their end (a zero-length kernel precedes the "
     "kernel that starts when it ends); among several zero-length kernels at one instant the launch used for the host_wait test "
@@ -56,19 +59,44 @@ def check(case: Dict[str, Any]) -> CaseInfo:
     p = case["params"]
     classes: List[str] = []
     nontrivial = False
+    # what loading keeps (>= 2 profiler steps: everything from the last step on is trimmed, see C12).  A kernel without any
+    # correlation id has an open fate under trimming: every combination of kept / dropped is an accepted reading.
+    base_rows: Dict[int, List[Any]] = {}
+    open_kernels: Dict[int, List[Any]] = {}
+    trimmed = False
+    for rd in case["ranks"]:
+        rows_all = complete_rows(rd["events"])
+        keep, free = kept_after_load(rows_all, include_last=False)
+        is_k = lambda r: r.stream != -1 and r.cat in KCATS  # noqa: E731
+        open_kernels[rd["rank"]] = [r for r in rows_all if r.id in free and is_k(r)]
+        base_rows[rd["rank"]] = [r for r in rows_all if r.id in keep or (r.id in free and not is_k(r))]
+        trimmed = trimmed or len(keep) + len(free) < len(rows_all)
+    want_ranks = p["ranks"] if p["ranks"] else [0]
+    for rank in want_ranks:
+        if not any(r.stream != -1 and r.cat in KCATS for r in base_rows.get(rank, [])):
+            return CaseInfo(nontrivial=False, classes=[], excluded=["requested_rank_without_kernels_after_trimming"])
+        if len(open_kernels.get(rank, [])) > 3:
+            return CaseInfo(nontrivial=False, classes=[], excluded=["more_than_3_uncorrelated_kernels_in_a_trimmed_trace"])
+    if trimmed:
+        classes.append("trimmed_by_last_profiler_step")
+        if any(open_kernels.get(r) for r in want_ranks):
+            classes.append("trimmed_trace_with_uncorrelated_kernel")
     with scratch_dir() as d:
         files = write_case(case, d)
         ta = load_analysis(files, d, mp=case.get("mp", False), prelude=case.get("prelude"))
         df, _ = hta_call("get_idle_time_breakdown", lambda: ta.get_idle_time_breakdown(
             ranks=p["ranks"], streams=p["streams"], visualize=False, consecutive_kernel_delay=p["threshold"]))
-    want_ranks = p["ranks"] if p["ranks"] else [0]
     require(set(int(r) for r in df["rank"]) <= set(want_ranks), "ranks", lambda: f"{sorted(set(df['rank']))} vs {want_ranks}")
-    for rd in case["ranks"]:
+    import itertools
+
+    from hv.core import Violation
+
+    def validate_rank(rd, rows, classes) -> bool:
+        nontrivial = False
         rank = rd["rank"]
-        if rank not in want_ranks:
-            continue
-        rows = complete_rows(rd["events"])
-        lk = links(rows)
+        lk_all = links(complete_rows(rd["events"]))
+        kept_ids = {r.id for r in rows}
+        lk = {i: (v if v in kept_ids else 0) for i, v in lk_all.items()}  # a partner that was trimmed away is absent
         by_id = {r.id: r for r in rows}
         kern = [r for r in rows if r.stream != -1 and r.cat in KCATS]
         streams = sorted({r.stream for r in kern})
@@ -115,12 +143,38 @@ def check(case: Dict[str, Any]) -> CaseInfo:
                     classes.append("F10_pattern")
         if p["streams"]:
             classes.append("stream_subset")
+        return nontrivial
+
+    for rd in case["ranks"]:
+        rank = rd["rank"]
+        if rank not in want_ranks:
+            continue
+        opens = open_kernels[rank] if trimmed else []
+        first_err = None
+        for n_keep in range(len(opens), -1, -1):
+            done = False
+            for subset in itertools.combinations(opens, n_keep):
+                rows = sorted(base_rows[rank] + list(subset) + ([] if trimmed else open_kernels[rank]), key=lambda r: r.id)
+                local: List[str] = []
+                try:
+                    if validate_rank(rd, rows, local):
+                        nontrivial = True
+                    classes += local
+                    done = True
+                    break
+                except Violation as e:
+                    first_err = first_err or e
+            if done:
+                break
+        else:
+            raise first_err
     return CaseInfo(nontrivial=nontrivial, classes=classes)
 
 
 @st.composite
 def c06_case(draw):
-    o = Opts(early_kernels=True, steps=[0, 1], w_launch=9, w_sync=1, w_op=3, w_rt=1, max_top=6, streams=3, ensure_kernel=True, lead_op=True, fault_none_weight=5,
+    trimming = draw(st.sampled_from([False, False, True]))
+    o = Opts(early_kernels=True, steps=[0, 1] if not trimming else [2, 3], w_launch=9, w_sync=1, w_op=3, w_rt=1, max_top=6, streams=3, ensure_kernel=True, lead_op=True, fault_none_weight=5,
              second_thread=False)
     case = draw(sim_case(o, max_ranks=2))
     all_ranks = [r["rank"] for r in case["ranks"]]
@@ -146,5 +200,5 @@ def view(case):
 def campaigns(tier: str) -> List[Campaign]:
     return [Campaign("idle", c06_case(), check, quick=400, thorough=24000, quick_shards=8,
                      required_classes={"host_wait": 0.2, "kernel_wait": 0.15, "other": 0.15, "activity_without_launch": 0.05,
-                                       "F10_pattern": 0.02, "first_entry_not_earliest": 0.1},
+                                       "F10_pattern": 0.02, "first_entry_not_earliest": 0.1, "trimmed_by_last_profiler_step": 0.08},
                      sample_view=view)]
